@@ -55,7 +55,7 @@ func DrawProfile(r *rand.Rand) Profile {
 		MaxStmts:    1 + r.IntN(6),
 		MaxDepth:    1 + r.IntN(3),
 		MaxVars:     r.IntN(7),
-		NAccounts:   2 + r.IntN(6),
+		NAccounts:   2 + r.IntN(8),
 		POrigin:     f(0, 0.2, 0.5, 0.8),
 		PBalance:    f(0.3, 0.6, 1),
 		POverdraft:  f(0, 0.2, 0.5),
@@ -85,7 +85,9 @@ func DrawProfile(r *rand.Rand) Profile {
 	}
 }
 
-var AccountPool = []string{"a", "b", "c", "x:y", "x", "users:001", "d"}
+var AccountPool = []string{"a", "b", "c", "x:y", "x", "users:001", "d",
+	"orgs:0123456789abcdef0123456789abcdef:users:fedcba9876543210fedcba9876543210:main",
+	"orgs:0123456789abcdef0123456789abcdef:users:fedcba9876543210fedcba9876543210:main:sub"}
 var AssetPool = []string{"USD", "EUR/2", "COIN", "EUR"}
 var KeyPool = []string{"k", "fee", "owner"}
 
@@ -441,7 +443,7 @@ func (g *G) source(asset string, depth int, sendAll bool, ample bool) Src {
 	}
 	switch weighted(g.R, w) {
 	case 1:
-		n := g.R.IntN(4)
+		n := []int{0, 1, 2, 2, 3, 3, 4, 5}[g.R.IntN(8)]
 		if ample && n == 0 {
 			n = 1
 		}
@@ -458,7 +460,7 @@ func (g *G) source(asset string, depth int, sendAll bool, ample bool) Src {
 		// inside a cap the default (bounded) evaluation applies even in send-all
 		return Src{K: "cap", E: g.capExpr(asset), Subs: []Src{g.source(asset, depth-1, false, false)}}
 	case 3:
-		k := 1 + g.R.IntN(3)
+		k := []int{1, 2, 2, 3, 3, 4, 5}[g.R.IntN(7)]
 		al := g.allotments(k)
 		s := Src{K: "allot"}
 		for i := 0; i < k; i++ {
@@ -513,7 +515,7 @@ func (g *G) destination(asset string, depth int) Dst {
 	switch weighted(g.R, w) {
 	case 1:
 		d := Dst{K: "seq"}
-		n := g.R.IntN(3)
+		n := []int{0, 1, 1, 2, 2, 3, 3, 4, 5, 6}[g.R.IntN(10)]
 		for i := 0; i < n; i++ {
 			d.Clauses = append(d.Clauses, DstClause{Cap: *g.capExpr(asset), To: g.kod(asset, depth-1)})
 		}
@@ -521,7 +523,7 @@ func (g *G) destination(asset string, depth int) Dst {
 		d.Rem = &rem
 		return d
 	case 2:
-		k := 1 + g.R.IntN(3)
+		k := []int{1, 2, 2, 3, 3, 4, 5}[g.R.IntN(7)]
 		al := g.allotments(k)
 		d := Dst{K: "allot"}
 		for i := 0; i < k; i++ {
@@ -644,8 +646,13 @@ func (g *G) genOriginVar(t string) {
 			bal = big.NewInt(0) // never requested; reads 0
 		}
 		name := g.freshName(t)
-		g.Prog.Vars = append(g.Prog.Vars, VarDecl{Type: t, Name: name, Fn: fn, Args: []Expr{*accE, *astE}})
-		vi := VarInfo{Name: name, Type: t, Asset: asset, Known: true}
+		declared := t
+		if g.chance(0.12) {
+			// `number $n = balance(...)` is accepted; the variable is then never used by the generator
+			declared = g.pick([]string{"number", "string", "account"})
+		}
+		g.Prog.Vars = append(g.Prog.Vars, VarDecl{Type: declared, Name: name, Fn: fn, Args: []Expr{*accE, *astE}})
+		vi := VarInfo{Name: name, Type: t, Asset: asset, Known: declared == t}
 		if fn == "balance" {
 			if bal.Sign() < 0 {
 				if g.P.Safe {
@@ -772,7 +779,14 @@ func Generate(r *rand.Rand, p Profile) *G {
 	if n < 1 {
 		n = 1
 	}
-	g.Accts = AccountPool[:n]
+	g.Accts = append([]string(nil), AccountPool[:n]...)
+	if n < len(AccountPool) && g.chance(0.25) {
+		// swap in names from the tail of the pool (long names, names that are prefixes of each other)
+		g.Accts[g.R.IntN(n)] = AccountPool[len(AccountPool)-1-g.R.IntN(2)]
+		if n > 1 && g.chance(0.5) {
+			g.Accts[g.R.IntN(n)] = AccountPool[len(AccountPool)-2]
+		}
+	}
 	// ledger truth first: every pool account, plus entries the script never
 	// asks for (world with a negative balance, an extra account).
 	for _, a := range g.Accts {
@@ -797,8 +811,12 @@ func Generate(r *rand.Rand, p Profile) *G {
 		st := g.genStmt()
 		g.Prog.Stmts = append(g.Prog.Stmts, st)
 	}
+	if g.chance(p.PComment) || g.chance(0.05) {
+		g.Prog.Trailer = g.pick([]string{"// end", "// fin du script", "/* done */", "// "})
+	}
 	if g.chance(p.PCompact) {
 		g.Prog.Style = 1
+		g.Prog.Trailer = ""
 		for i := range g.Prog.Stmts {
 			g.Prog.Stmts[i].Comment = "" // line comments need their own line
 		}
